@@ -14,19 +14,19 @@ RULE_TRACE = ("direction B: seeded drivers run histories on the real code (all 1
 def c01(run):
     run.format_theorems(Q(run, 1, 6))
     wire_design(run, [])
-    run.trace("roundtrip-canon", Q(run, 4, 60))
-    run.trace("stream", Q(run, 2, 10), seed_off=100)
+    run.trace("roundtrip-canon", Q(run, 4, 200))
+    run.trace("stream", Q(run, 2, 30), seed_off=100)
     run.assumptions += ["canonical domain decided by Canonical(T, v) in Codec.tla", "self-computed fields compared with the object the encoder left behind (their correctness is C04/C05)"]
     return run.finish(RULE_TRACE)
 
 
 def c02(run):
-    run.trace("roundtrip-wild", Q(run, 4, 60))
-    run.trace("roundtrip-canon", Q(run, 2, 30), seed_off=100)
-    run.trace("tables", Q(run, 1, 3), seed_off=200)
-    path, st = run.child_trace(run.spec_images(Q(run, 2, 12), reencode=False), "spec-images")
+    run.trace("roundtrip-wild", Q(run, 4, 200))
+    run.trace("roundtrip-canon", Q(run, 2, 100), seed_off=100)
+    run.trace("tables", Q(run, 1, 6), seed_off=200)
+    path, st = run.child_trace(run.spec_images(Q(run, 2, 40), reencode=False), "spec-images")
     run.judge(path, st, "spec-images")
-    run.trace("registry-frames", Q(run, 20, 200), types=["sse.SseBinary", "szse.SzseBinary", "sample.RootPacket"], seed_off=300)
+    run.trace("registry-frames", Q(run, 20, 1000), types=["sse.SseBinary", "szse.SzseBinary", "sample.RootPacket"], seed_off=300)
     run.assumptions += ["the pinned schema was frozen from the pinned commit (the .pdsl sources are not in the repository); byte order is per protocol, taken from the scalar fields"]
     return run.finish(RULE_TRACE)
 
@@ -36,12 +36,12 @@ def wire_design(run, devs):
     run.wire_model(Q(run, "MCWire_d3.cfg", "MCWire_d5.cfg"), note="every history of <= %s public operations over the frame universe: FramesRight, ObjectReports, HeadDecodes, ChannelShape, AppendOnly" % Q(run, 3, 5))
     for cfg, inv in devs:
         run.wire_model(cfg, expect=inv)
-    run.behaviour_replay(Q(run, "MCWire_export3.cfg", "MCWire_export4.cfg"), sample=Q(run, None, 60000))
+    run.behaviour_replay(Q(run, "MCWire_export3.cfg", "MCWire_export4.cfg"), sample=None)
 
 
 RULE_WIRE = ("design model: WireMachine.tla, exhaustive over every history of <= 3 (quick) / 5 (thorough) public operations {Encode of each of 10 sample "
              "messages (every frame type with and without body, a plain message), SetStale, Decode, Next(1|5|one frame), Reset, WriteRaw}; the named "
-             "deviations must violate FramesRight. A: every exported behaviour (depth 3; thorough: a 60,000 sample of depth 4) is executed on the real "
+             "deviations must violate FramesRight. A: every exported behaviour (depth 3; thorough: all ~200,000 of depth 4) is executed on the real "
              "types and the result, unread bytes and object are compared with the model after every step. ")
 
 
@@ -80,26 +80,26 @@ def c06(run):
 
 def c07(run):
     wire_design(run, [])
-    run.trace("stream", Q(run, 3, 40))
+    run.trace("stream", Q(run, 3, 120))
     run.trace("long-lists", Q(run, 1, 2), seed_off=100, chunk=8)
     return run.finish(RULE_WIRE + RULE_TRACE + "long-lists: lists whose count x element size crosses 65,536 followed by a second message.")
 
 
 def c08(run):
     run.format_theorems(Q(run, 1, 6))
-    run.trace("reencode", Q(run, 5, 80))
-    path, st = run.child_trace(run.spec_images(Q(run, 2, 12)), "spec-images")
+    run.trace("reencode", Q(run, 5, 300))
+    path, st = run.child_trace(run.spec_images(Q(run, 2, 40)), "spec-images")
     run.judge(path, st, "spec-images")
     return run.finish(RULE_TRACE + "A: wire images rendered by the specification (Images.tla: the pinned rendering of sample values of all 170 types with every fixed text "
                       "cut to 0/1/3/all bytes) are decoded by the real code and the result re-encoded (half of them after the receive buffer was recycled).")
 
 
 def c09(run):
-    hp, reports = run.spec_hostile(Q(run, 1, 6))
+    hp, reports = run.spec_hostile(Q(run, 1, 20))
     path, st = run.child_trace(hp, "spec-hostile")
     run.cov["spec_generated_inputs"] = len(reports)
     run.judge(path, st, "spec-hostile")
-    path, st = run.child_trace(run.gen_histories("hostile", Q(run, 2, 40)), "hostile")
+    path, st = run.child_trace(run.gen_histories("hostile", Q(run, 2, 100)), "hostile")
     run.judge(path, st, "hostile")
     path, st = run.child_trace(run.gen_histories("hostile-prims", 1), "hostile-prims")
     run.judge(path, st, "hostile-prims")
@@ -108,11 +108,11 @@ def c09(run):
 
 
 def c10(run):
-    hp, reports = run.spec_hostile(Q(run, 1, 6))
+    hp, reports = run.spec_hostile(Q(run, 1, 20))
     path, st = run.child_trace(hp, "spec-hostile")
     run.cov["spec_generated_inputs"] = len(reports)
     run.judge(path, st, "spec-hostile")
-    path, st = run.child_trace(run.gen_histories("hostile", Q(run, 2, 40)), "hostile")
+    path, st = run.child_trace(run.gen_histories("hostile", Q(run, 2, 100)), "hostile")
     run.judge(path, st, "hostile")
     path, st = run.child_trace(run.gen_histories("hostile-prims", 1), "hostile-prims")
     run.judge(path, st, "hostile-prims")
@@ -135,32 +135,32 @@ RULE_HOSTILE = ("direction A: TLC derives, from sample values of all 170 types, 
 
 def c11(run):
     run.format_theorems(Q(run, 1, 6))
-    run.trace("cut", Q(run, 1, 12), chunk=4000)
+    run.trace("cut", Q(run, 1, 24), chunk=4000)
     run.trace("prim-cut", Q(run, 1, 8), seed_off=100)
     return run.finish(RULE_TRACE + "Every cut position 0..len-1 of each encoding (all cuts within the first/last 150 bytes plus 100 random ones for encodings over 400 bytes).")
 
 
 def c12(run):
-    run.trace("tables", Q(run, 1, 4))
-    run.trace("tables-dynamic", Q(run, 2, 10), seed_off=100, patch_tables=True)
+    run.trace("tables", Q(run, 1, 8))
+    run.trace("tables-dynamic", Q(run, 2, 30), seed_off=100, patch_tables=True)
     return run.finish(RULE_TRACE + "tables-dynamic: one new key and one overridden key per table registered through the exported Registry...Factory functions in a "
                       "process of its own; the specification then judges that run against the pinned tables patched with the logged registrations. "
                       "All 18 tables x all 226 registered keys x unregistered keys (numeric: every key +-1, byte-swapped, 0, all-ones, 16 random; text: all 512 3-character strings over an 8-symbol alphabet plus prefixes/extensions of registered keys).")
 
 
 def c15(run):
-    run.trace("dirty", Q(run, 3, 40))
+    run.trace("dirty", Q(run, 3, 150))
     return run.finish(RULE_TRACE)
 
 
 def c16(run):
-    run.trace("alias", Q(run, 3, 40))
+    run.trace("alias", Q(run, 3, 150))
     run.assumptions += ["aliasing is detected through observable value change only"]
     return run.finish(RULE_TRACE)
 
 
 def c17(run):
-    run.trace("encode-any", Q(run, 4, 60))
+    run.trace("encode-any", Q(run, 4, 200))
     run.trace("tables", Q(run, 1, 2), seed_off=100)
     return run.finish(RULE_TRACE)
 
@@ -187,13 +187,13 @@ def c03(run):
 
 def c13(run):
     run.prim_model_replay()
-    run.trace("prim-fixed", Q(run, 2, 30))
+    run.trace("prim-fixed", Q(run, 2, 100))
     run.trace("prim-fixed-sweep", 1, seed_off=100)
     return run.finish(RULE_PRIMMODEL + RULE_PRIM + "Widths 0..5,10,16,200; pads 00,20,30,80,E9,FF and a random one; both sides; texts of length 0..N+2 over {pad,00,20,41,C3,A9,FF,30} and random bytes.")
 
 
 def c14(run):
-    run.trace("calc", Q(run, 1, 10), chunk=3000)
+    run.trace("calc", Q(run, 1, 30), chunk=3000)
     run.trace("calc-giant", Q(run, 1, 2), seed_off=100)
     run.trace("calc-reuse", Q(run, 1, 6), seed_off=150)
     if run.tier == "thorough":
